@@ -29,3 +29,15 @@ for pd in sorted(glob.glob(os.path.join(base, 'C*', '*', 'patch.diff')) + glob.g
 for row in rows:
     print('%-12s %-8s %s' % row)
 print('caught %d / %d' % (sum(1 for r in rows if r[1] == 'CAUGHT'), len(rows)))
+if base.rstrip('/') == '/verif/seeded' and not props:
+    import json
+    with open(os.path.join(base, 'RESULTS.md'), 'w') as f:
+        f.write('# Seeded changes and the rules that report them\n\nWritten by tools/seedrun.py: every patch is applied to a scratch copy of /repo HEAD (never to /repo) and the check of its property is run on the copy.\n\n')
+        f.write('| seed | status | rules reporting a violation | what was changed |\n|---|---|---|---|\n')
+        for rel, status, rules in rows:
+            try:
+                what = json.load(open(os.path.join(base, rel, 'meta.json')))['summary'].replace('|', '/').replace('\n', ' ')[:220]
+            except Exception:
+                what = ''
+            f.write('| %s | %s | %s | %s |\n' % (rel, status, rules, what))
+        f.write('\ncaught %d / %d\n' % (sum(1 for r in rows if r[1] == 'CAUGHT'), len(rows)))
